@@ -81,4 +81,10 @@ def run(tier: str, rep: Report):
         a, b = evid.split(">")
         return f"{PID}/{'+'.join(sorted(set(c.split('.', 1)[1] for c in clauses)))}/{a.split(':')[0]}/from{a.split(':')[1]}to{b.split(':')[0]}"
 
+    def corrupt(e):
+        e["same_raw"] = False
+        e["same_norm"] = False
+        return e
+
+    df.negative_control(rep, files, "Trace_Hosts", corrupt, ("P15.same",))
     df.classify(rep, fails, ("P15.",), PID, keyfn)
